@@ -157,6 +157,7 @@ enum {
   X(void, jv_wk_sk_set_l, (void* sk, int l)) \
   X(void, jv_wk_sk_set_bidx, (void* sk, int i, uint32_t idx)) \
   X(void, jv_wk_sk_set_barray, (void* sk, void* barray)) \
+  X(void, jv_wk_sk_stale_from, (void* dst, const void* src, int l)) \
   X(void, jv_wk_params_set_harray, (void* p, void* harray)) \
   X(void, jv_apair_set, (int view, void* arr, size_t i, const void* g1a, const void* g2a)) \
   X(void, jv_ppair_set, (int view, void* arr, size_t i, const void* g1a, const void* g2p)) \
